@@ -161,6 +161,91 @@ func c10Families(tier string) []explore.Family {
 			}
 		}})
 	}
+	// --- an else is a branch like the others - one whose condition always holds: wherever it stands (also BEFORE
+	// an elsif, or twice), the first branch that holds in source order is rendered and nothing after it is evaluated
+	truthy3 := []truthVal{c10T[0], c10T[1], c10T[3], c10T[7]} // nil, false, 0, "x"
+	for _, kw := range []string{"if", "unless"} {
+		kw := kw
+		for nb := 1; nb <= 3; nb++ {
+			nb := nb
+			// clause kinds after the opening condition: each position is an elsif (with one of 4 values) or an else
+			opts := len(truthy3) + 1
+			cnt := int64(len(truthy3))
+			for j := 0; j < nb; j++ {
+				cnt *= int64(opts)
+			}
+			fams = append(fams, explore.Family{Name: fmt.Sprintf("%s-with-else-anywhere-%d-clauses", kw, nb), Count: cnt, Run: func(i int64, r *explore.Rec) {
+				rx := radix{i}
+				first := truthy3[rx.next(len(truthy3))]
+				type clause struct {
+					isElse bool
+					c      truthVal
+				}
+				cl := make([]clause, nb)
+				nElse := 0
+				for j := range cl {
+					k := rx.next(opts)
+					if k == len(truthy3) {
+						cl[j].isElse = true
+						nElse++
+					} else {
+						cl[j].c = truthy3[k]
+					}
+				}
+				if nElse == 0 || (nElse == 1 && cl[nb-1].isElse) {
+					return // the ordinary shapes are the other families' business
+				}
+				if kw == "unless" && nElse != nb {
+					return // unless takes no elsif in this grammar: only several else clauses
+				}
+				var sb strings.Builder
+				sb.WriteString(fmt.Sprintf("{%% %s %s | probe: 0 %%}M0", kw, first.name))
+				firstHolds := first.t
+				if kw == "unless" {
+					firstHolds = !first.t
+				}
+				sel, want := -1, ""
+				wantLog := []int{0}
+				if firstHolds {
+					sel, want = 0, "M0"
+				}
+				for j, c := range cl {
+					if c.isElse {
+						sb.WriteString(fmt.Sprintf("{%% else %%}M%d", j+1))
+						if sel < 0 {
+							sel, want = j+1, "M"+strconv.Itoa(j+1)
+						}
+						continue
+					}
+					cond := fmt.Sprintf("%s | probe: %d", c.c.name, j+1)
+					if sel >= 0 {
+						cond = c.c.name + " | fail" // must not be evaluated
+					} else {
+						wantLog = append(wantLog, j+1)
+						if c.c.t {
+							sel, want = j+1, "M"+strconv.Itoa(j+1)
+						}
+					}
+					sb.WriteString(fmt.Sprintf("{%% elsif %s %%}M%d", cond, j+1))
+				}
+				sb.WriteString("{% end" + kw + " %}")
+				src := sb.String()
+				c10.log = c10.log[:0]
+				r.Eval()
+				r.Transition()
+				r.Trace()
+				o := Render(c10.eng, src, c10Bind())
+				desc := map[string]any{"template": src}
+				r.Class(fmt.Sprintf("else-anywhere/%s/sel%d", kw, sel))
+				if o.Panic != nil || o.Err != nil || o.Out != want {
+					r.Violation("wrong-branch:else-before-another-clause", desc, want, o.String())
+				} else if fmt.Sprint(c10.log) != fmt.Sprint(wantLog) {
+					r.Violation("evaluation-order:else-before-another-clause", desc, "conditions evaluated: "+fmt.Sprint(wantLog), fmt.Sprint(c10.log))
+				}
+			}})
+		}
+	}
+
 	// --- scaled: long chains (7..60 branches); the first truthy condition at every position, or none
 	for _, b := range []int{7, 8, 9, 15, 16, 17, 31, 32, 33, 60} {
 		b := b
